@@ -1,7 +1,7 @@
-(* C11, stated of the SOURCE AS IT IS NOW: PointerBuf::push_front, push_back, pop_back, pop_front, append and clear
-   are re-translated from src/pointer.rs by tools/rs2v.py on every run (Generated/ScanBuf.v; a `&mut self` method
-   becomes a function returning (self afterwards, result)).  PointerBuf::replace and from_tokens are modelled by
-   hand only (Model/Pointer.v). *)
+(* C11, stated of the SOURCE AS IT IS NOW: all seven mutators of PointerBuf (push_front, push_back, pop_back,
+   pop_front, append, replace, clear) and from_tokens are re-translated from src/pointer.rs by tools/rs2v.py on every
+   run (Generated/ScanBuf.v; a `&mut self` method becomes a function returning (self afterwards, result); the items of
+   `tokens()` are modelled by their encoded text). *)
 From JP Require Import Bytes Spec SpecBuf GenPrelude Model.Token Model.Pointer Generated.ScanTypes Generated.ScanToken
   Generated.ScanBuf Proofs.GenEquivBase Proofs.GenEquivBuf.
 
@@ -20,6 +20,31 @@ Proof.
         (conj (gen_pop_front_eq p) (conj (gen_append_eq p q) (gen_clear_eq p)))))).
 Qed.
 Print Assumptions C11_src_functions_are_model.
+
+Theorem C11_src_replace_is_model : forall (p : str) (index : N) (t : Token),
+  gen_PointerBuf_replace p index t =
+  Ret (let '(p', r) := replace_tok p index (cow_text (Token_inner t)) in (p', gen_repl r)).
+Proof. exact gen_replace_eq. Qed.
+Print Assumptions C11_src_replace_is_model.
+
+Theorem C11_src_from_tokens_is_model : forall ts : list Token,
+  gen_PointerBuf_from_tokens ts = Ret (from_tokens_enc (map (fun t => cow_text (Token_inner t)) ts)).
+Proof. exact gen_from_tokens_eq. Qed.
+Print Assumptions C11_src_from_tokens_is_model.
+
+(* replace: an out-of-bounds error carrying the index and the token count and leaving the buffer unchanged, or the
+   previous token with the deque updated at that position *)
+Theorem C11_src_replace_refines_deque : forall (p : str) (index : N) (c : Cow),
+  valid_ptr p = true ->
+  exists t p' r,
+    gen_Token_new c = Ret t /\ gen_PointerBuf_replace p index t = Ret (p', r) /\ valid_ptr p' = true /\
+    (len (tokens p) <= index -> r = Err (mk_ReplaceError index (len (tokens p))) /\ p' = p) /\
+    (index < len (tokens p) ->
+       exists old, r = Ok (Some (tokO old)) /\ valid_tok old = true /\
+         unescape old = nth (N.to_nat index) (dtokens p) [] /\
+         dtokens p' = set_nth (N.to_nat index) (cow_text c) (dtokens p)).
+Proof. exact gen_replace_refines_deque. Qed.
+Print Assumptions C11_src_replace_refines_deque.
 
 (* none of them panics, for any text *)
 Theorem C11_src_total : forall (p q : str) (t : Token),
@@ -66,5 +91,8 @@ Example C11_src_examples :
   gen_PointerBuf_pop_front [SLASH; SLASH; 97] = Ret ([SLASH; 97], Some (tokO [])) /\
   gen_PointerBuf_pop_back [SLASH] = Ret ([], Some (tokO [])) /\
   gen_PointerBuf_pop_back [] = Ret ([], None) /\
-  gen_PointerBuf_append [] [SLASH; 97] = Ret ([SLASH; 97], [SLASH; 97]).
+  gen_PointerBuf_append [] [SLASH; 97] = Ret ([SLASH; 97], [SLASH; 97]) /\
+  gen_PointerBuf_replace [SLASH; 97; SLASH; 98] 1 (mk_Token (Cow_Borrowed [99])) = Ret ([SLASH; 97; SLASH; 99], Ok (Some (tokO [98]))) /\
+  gen_PointerBuf_replace [SLASH; 97] 18446744073709551615 (mk_Token (Cow_Borrowed [99])) = Ret ([SLASH; 97], Err (mk_ReplaceError 18446744073709551615 1)) /\
+  gen_PointerBuf_from_tokens [mk_Token (Cow_Borrowed [97]); mk_Token (Cow_Owned [TILDE; ONE])] = Ret [SLASH; 97; SLASH; TILDE; ONE].
 Proof. vm_compute. repeat split. Qed.
